@@ -47,6 +47,14 @@ const (
 	c18BehShutBC = "shutBC"
 	c18BehErrAC  = "errAC"
 	c18BehShutAC = "shutAC"
+	// errMid: challenge, then transport error before the subscribe message
+	// can be sent (the signer holds the handshake until the client has
+	// seen the stream error, so the send fails deterministically)
+	c18BehErrMid = "errMid"
+	// reject: challenge, subscribe verified, then an ACCOUNT_DOES_NOT_EXIST
+	// answer instead of success (stream stays up; outside the property's
+	// fault model, used to drive the error paths of the reconnect logic)
+	c18BehReject = "reject"
 )
 
 type c18Commit struct {
@@ -77,6 +85,7 @@ type c18Server struct {
 	byKey    map[string]int
 	pubs     []*btcec.PublicKey
 	activity *int64
+	midFault int32 // a stream was just failed right after its challenge
 }
 
 func (s *c18Server) touch() { atomic.StoreInt64(s.activity, time.Now().UnixNano()) }
@@ -139,6 +148,14 @@ func (s *c18Server) SubscribeBatchAuction(st auctioneerrpc.ChannelAuctioneer_Sub
 	for {
 		select {
 		case <-inErr:
+			// the client half-closed (closeStream: CloseSend, then
+			// cancel). Ending the RPC right away would race a clean
+			// end-of-stream (outside the fault model) against the
+			// cancellation; wait for the cancellation.
+			select {
+			case <-st.Context().Done():
+			case <-time.After(time.Second):
+			}
 			return end("client-closed", nil)
 		case <-st.Context().Done():
 			return end("client-closed", nil)
@@ -171,9 +188,15 @@ func (s *c18Server) SubscribeBatchAuction(st auctioneerrpc.ChannelAuctioneer_Sub
 					var ch [32]byte
 					copy(ch[:], cm.hash)
 					cm.challenge = account.AuthChallenge(ch, nonce)
+					if beh == c18BehErrMid {
+						atomic.StoreInt32(&s.midFault, 1)
+					}
 					_ = st.Send(&auctioneerrpc.ServerAuctionMessage{Msg: &auctioneerrpc.ServerAuctionMessage_Challenge{
 						Challenge: &auctioneerrpc.ServerChallenge{Challenge: cm.challenge[:], CommitHash: cm.hash},
 					}})
+					if beh == c18BehErrMid {
+						return end("injected-error", errC18Injected)
+					}
 				}
 			case m.GetSubscribe() != nil:
 				sub := m.GetSubscribe()
@@ -213,6 +236,14 @@ func (s *c18Server) SubscribeBatchAuction(st auctioneerrpc.ChannelAuctioneer_Sub
 					return end("injected-error", errC18Injected)
 				case c18BehShutAC:
 					_ = st.Send(c18Shutdown())
+				case c18BehReject:
+					_ = st.Send(&auctioneerrpc.ServerAuctionMessage{Msg: &auctioneerrpc.ServerAuctionMessage_Error{
+						Error: &auctioneerrpc.SubscribeError{
+							Error:     "account does not exist",
+							ErrorCode: auctioneerrpc.SubscribeError_ACCOUNT_DOES_NOT_EXIST,
+							TraderKey: sub.TraderKey,
+						},
+					}})
 				default:
 					_ = st.Send(&auctioneerrpc.ServerAuctionMessage{Msg: &auctioneerrpc.ServerAuctionMessage_Success{
 						Success: &auctioneerrpc.SubscribeSuccess{TraderKey: sub.TraderKey},
@@ -338,6 +369,18 @@ func c18RunScenario(scn c18Scn, uniq int) *c18ScnResult {
 		res.Bad = append(res.Bad, "Start: "+err.Error())
 		return res
 	}
+	// errMid: hold the handshake between challenge and subscribe until the
+	// stream error has been read by the client and is in flight to the
+	// diverted channel (run holds the switch mutex) – then the send fails
+	signer.pre = func() {
+		if atomic.CompareAndSwapInt32(&srv.midFault, 1, 0) {
+			deadline := time.Now().Add(2 * time.Second)
+			for !client.VerifC18Switch().VerifC18Locked() && time.Now().Before(deadline) {
+				time.Sleep(50 * time.Microsecond)
+			}
+			time.Sleep(200 * time.Microsecond)
+		}
+	}
 
 	// the main error handler, as rpcServer.serverHandler reacts to
 	// StreamErrChan (tied to the source by the generated fact
@@ -360,11 +403,18 @@ func c18RunScenario(scn c18Scn, uniq int) *c18ScnResult {
 				mainErrs = append(mainErrs, c18ErrClass(err))
 				hmu.Unlock()
 				if err != nil && err != auctioneer.ErrServerShutdown {
-					herr := client.HandleServerShutdown(err)
-					touch()
-					hmu.Lock()
-					handlerRes = append(handlerRes, c18ErrClass(herr))
-					hmu.Unlock()
+					for err != nil && err != auctioneer.ErrClientShutdown {
+						select {
+						case <-hquit:
+							return
+						default:
+						}
+						err = client.HandleServerShutdown(err)
+						touch()
+						hmu.Lock()
+						handlerRes = append(handlerRes, c18ErrClass(err))
+						hmu.Unlock()
+					}
 				}
 			case <-hquit:
 				return
@@ -392,10 +442,8 @@ func c18RunScenario(scn c18Scn, uniq int) *c18ScnResult {
 	subscribed := map[int]bool{} // accounts whose StartAccountSubscription returned nil
 	faultSeen := false
 	modelled := true // still inside the fragment the Lean model covers
-	var prevMap []int
 	res.Lines = append(res.Lines, [2]string{"C18 cl reset", "ok"})
 	for opIdx, op := range scn.Ops {
-		wasOpen := client.IsSubscribed()
 		sink.drain()
 		srv.mu.Lock()
 		srv.refuse = op.Refuse
@@ -517,7 +565,7 @@ func c18RunScenario(scn c18Scn, uniq int) *c18ScnResult {
 		hmu.Unlock()
 		or.Open = client.IsSubscribed()
 		if or.Ret != "hung" {
-			for k := range client.VerifSubscribed() {
+			for k := range client.VerifC18Subscribed() {
 				or.Map = append(or.Map, srv.byKey[string(k[:])])
 			}
 			sort.Ints(or.Map)
@@ -570,62 +618,11 @@ func c18RunScenario(scn c18Scn, uniq int) *c18ScnResult {
 		srv.mu.Unlock()
 		res.BehSeen = append(res.BehSeen, behSeen)
 		if modelled {
-			// re-subscription loops = streams opened during the op,
-			// except the one a first connect opens for the direct handshake
-			loops := or.Order
-			if len(loops) > or.NewStreams {
-				loops = loops[len(loops)-or.NewStreams:]
-			}
-			if op.Kind == "sub" && !wasOpen && len(loops) > 0 {
-				loops = loops[1:]
-			}
-			set := append([]int(nil), prevMap...)
-			if op.Kind == "sub" {
-				has := false
-				for _, a := range set {
-					has = has || a == op.Acct
-				}
-				if !has {
-					set = append(set, op.Acct)
-				}
-			}
-			var ords []string
-			for _, lp := range loops {
-				full := append([]int(nil), lp...)
-				rest := []int{}
-				for _, a := range set {
-					in := false
-					for _, b := range lp {
-						in = in || a == b
-					}
-					if !in {
-						rest = append(rest, a)
-					}
-				}
-				sort.Ints(rest)
-				full = append(full, rest...)
-				ss := make([]string, len(full))
-				for i, a := range full {
-					ss[i] = fmt.Sprint(a)
-				}
-				if len(ss) == 0 {
-					ords = append(ords, "e")
-				} else {
-					ords = append(ords, strings.Join(ss, "."))
-				}
-				if len(lp) < len(set) {
-					set = append([]int(nil), lp...) // aborted: the rest was dropped
-				}
-			}
-			ordTok := "-"
-			if len(ords) > 0 {
-				ordTok = strings.Join(ords, "/")
-			}
 			behTok := "-"
 			if len(op.Beh) > 0 {
 				behTok = strings.Join(op.Beh, ",")
 			}
-			line := fmt.Sprintf("C18 cl %s %d %d %s %s", op.Kind, op.Acct, op.Refuse, behTok, ordTok)
+			line := fmt.Sprintf("C18 cl %s %d %d %s", op.Kind, op.Acct, op.Refuse, behTok)
 			fi := func(l []int) string {
 				if len(l) == 0 {
 					return "-"
@@ -665,7 +662,6 @@ func c18RunScenario(scn c18Scn, uniq int) *c18ScnResult {
 				res.Lines = append(res.Lines, [2]string{line, out})
 			}
 		}
-		prevMap = or.Map
 		res.Trace = append(res.Trace, fmt.Sprintf("%s acct=%d refuse=%d beh=%v => ret=%s main=%v handler=%v newStreams=%d attempts=%d order=%v map=%v cur=%v alive=%v open=%v",
 			op.Kind, op.Acct, op.Refuse, op.Beh, or.Ret, or.MainErrs, or.HandlerRes, or.NewStreams, or.Attempts, or.Order, or.Map, or.Cur, or.Alive, or.Open))
 
@@ -698,29 +694,12 @@ func c18RunScenario(scn c18Scn, uniq int) *c18ScnResult {
 			sort.Ints(missing)
 			sort.Ints(dup)
 			if len(missing) > 0 && faultSeen && res.BadKey == "" {
-				// a finding's key is only given when its specific trigger
-				// was observed in this op; anything else is a new violation
-				resubFault, directFault := false, false
-				for bi, b := range behSeen {
-					if b == c18BehOK {
-						continue
-					}
-					if bi == 0 && op.Kind == "sub" {
-						directFault = b == c18BehErrBC || b == c18BehErrAC
-					} else {
-						resubFault = true
-					}
-				}
-				switch {
-				case chaos || !modelled:
+				// the only open finding: concurrent reconnects, keyed
+				// only when its trigger (shutdown notice during a
+				// re-subscription) was observed
+				if chaos || !modelled {
 					res.BadKey = "C18/client/concurrent-reconnects"
-				case op.Kind == "sub" && or.NewStreams == 0 && directFault && or.Ret == "err":
-					res.BadKey = "C18/client/dead-stream-after-handshake-error"
-				case resubFault && len(or.HandlerRes) > 0 && or.HandlerRes[len(or.HandlerRes)-1] != "nil":
-					res.BadKey = "C18/client/handler-reconnect-error-ignored"
-				case resubFault:
-					res.BadKey = "C18/client/resubscribe-abort-drops-accounts"
-				default:
+				} else {
 					res.BadKey = "C18/client/not-resubscribed"
 				}
 				res.Bad = append(res.Bad, fmt.Sprintf("after op %d (%s) the server is reachable and the client idle, but previously subscribed accounts %v are not subscribed on the newest stream (alive=%v)", opIdx, op.Kind, missing, or.Alive))
@@ -766,17 +745,27 @@ func c18RunScenario(scn c18Scn, uniq int) *c18ScnResult {
 func c18GenScenario(r *Run) c18Scn {
 	scn := c18Scn{Kind: "client", NAccts: 1 + r.Rng.Intn(4), MinMs: 1 + r.Rng.Intn(2)}
 	scn.MaxMs = scn.MinMs * []int{1, 2, 4, 8}[r.Rng.Intn(4)]
-	behs := []string{c18BehErrBC, c18BehShutBC, c18BehErrAC, c18BehShutAC}
-	script := func(n int) []string {
-		// mostly clean re-subscriptions; sometimes a fault at a
-		// random position of the following handshakes
+	behs := []string{c18BehErrBC, c18BehShutBC, c18BehErrAC, c18BehShutAC, c18BehErrMid,
+		c18BehErrBC, c18BehErrAC, c18BehErrMid}
+	script := func(n int, allowReject bool) []string {
+		// mostly clean re-subscriptions; one time in three 1-3 faults at
+		// random positions of the following handshakes (a fault during a
+		// re-subscription causes a nested reconnect whose handshakes
+		// consume the rest of the script)
 		var b []string
 		if r.Rng.Intn(3) == 0 {
-			pos := r.Rng.Intn(n + 1)
-			for i := 0; i < pos; i++ {
-				b = append(b, c18BehOK)
+			nf := 1 + r.Rng.Intn(3)
+			for f := 0; f < nf; f++ {
+				pos := r.Rng.Intn(n + 1)
+				for i := 0; i < pos; i++ {
+					b = append(b, c18BehOK)
+				}
+				x := behs[r.Rng.Intn(len(behs))]
+				if allowReject && r.Rng.Intn(5) == 0 {
+					x = c18BehReject
+				}
+				b = append(b, x)
 			}
-			b = append(b, behs[r.Rng.Intn(len(behs))])
 		}
 		return b
 	}
@@ -798,15 +787,15 @@ func c18GenScenario(r *Run) c18Scn {
 			}
 			if r.Rng.Intn(3) == 0 {
 				op.Beh = []string{behs[r.Rng.Intn(len(behs))]}
-				op.Beh = append(op.Beh, script(nsub+1)...)
+				op.Beh = append(op.Beh, script(nsub+1, false)...)
 				op.Refuse = refuse()
 			}
 			nsub++
 			scn.Ops = append(scn.Ops, op)
 		case x < 8:
-			scn.Ops = append(scn.Ops, c18Op{Kind: "err", Refuse: refuse(), Beh: script(nsub)})
+			scn.Ops = append(scn.Ops, c18Op{Kind: "err", Refuse: refuse(), Beh: script(nsub, true)})
 		default:
-			scn.Ops = append(scn.Ops, c18Op{Kind: "shut", Refuse: refuse(), Beh: script(nsub)})
+			scn.Ops = append(scn.Ops, c18Op{Kind: "shut", Refuse: refuse(), Beh: script(nsub, true)})
 		}
 	}
 	return scn
